@@ -22,17 +22,17 @@ CHECKS = {
           "DESIGN.md section 3 C02"),
   "C04": (True, "exploration",
           "proptest-driven generated git repositories; differential oracle = git itself (git ls-files --others --exclude-standard and git check-ignore --no-index)",
-          "1 600 generated repositories (30 000 thorough): trees with dots, dashes, upper case, glob-looking names and names ending in '.', 1-4 .gitignore files at different depths over the gitignore grammar (literals, *, ?, classes, ** in its legal positions, anchoring, directory-only, negation, escapes, comments, trailing blanks), optionally case-insensitive; rg --files is compared in both directions with git's untracked-file listing under five root spellings and -j1/-j2, and Gitignore::matched_path_or_any_parents with git check-ignore for every path and ancestor. Random exploration with bounded shrinking.",
+          "3 000 generated repositories (30 000 thorough): trees with dots, dashes, upper case, glob-looking names and names ending in '.', 1-4 .gitignore files at different depths over the gitignore grammar (literals, *, ?, classes, ** in its legal positions, anchoring, directory-only, negation, escapes, comments, trailing blanks), optionally case-insensitive; rg --files is compared in both directions with git's untracked-file listing under five root spellings and -j1/-j2, and Gitignore::matched_path_or_any_parents with git check-ignore for every path and ancestor. Random exploration with bounded shrinking.",
           "git 2.39 is the executable specification; git behaviours that contradict its own documentation (x**/y, core.ignorecase with \\A / [A]) are excluded from the generator and listed as assumptions; two known findings about bracket classes matching '/' are tolerated by exact explanation probes.",
           "DESIGN.md section 3 C04"),
   "C05": (True, "exploration",
           "proptest-driven generated trees with conflicting rule sources and flag sets; reference model of the documented filter precedence (FilterModel) vs rg --files",
-          "12 000 generated trees (200 000 thorough) carrying subsets of the seven rule sources at any depth including above the search root and the cwd, with forced conflicts between sources, .git present or absent, all --no-ignore-* / -u / --hidden / --no-require-git / -t / -T / --max-depth combinations and several root spellings; the listed files are compared in both directions with a from-scratch model of the documented order. All 21 ordered source pairs are contested in every run. Random exploration with shrinking.",
+          "20 000 generated trees (200 000 thorough) carrying subsets of the seven rule sources at any depth including above the search root and the cwd, with forced conflicts between sources, .git present or absent, all --no-ignore-* / -u / --hidden / --no-require-git / -t / -T / --max-depth combinations and several root spellings; the listed files are compared in both directions with a from-scratch model of the documented order. All 21 ordered source pairs are contested in every run. Random exploration with shrinking.",
           "The FilterModel is a reading of the documentation; combinations the documentation leaves undefined (anchored --ignore-file rules with absolute roots, anchored global rules, roots with ..) are rejected and counted; one known finding (parent ignore files see a re-based path) is tolerated only when an exact emulation of that defect reproduces the observed output.",
           "DESIGN.md section 3 C05"),
   "C06": (True, "exploration",
           "proptest-driven generated trees and walker configurations; three-way differential: serial walker vs parallel walker vs an independent recursive lister",
-          "1 500 generated trees (30 000 thorough) with empty directories, deep chains, wide fan-out, symlinks to files / directories / cycles / nowhere, several roots including file and symlink roots, part of the tree on a second device (/dev/shm), under combinations of max_depth, max_filesize, follow_links, same_file_system, an entry filter, hidden and ignore rules; each walked serially and with two parallel thread counts from 1..16 and compared as multisets of (path, depth, is_dir) with a from-scratch lister; link cycles must give a Loop error and termination (entry budget + watchdog). Random exploration with shrinking.",
+          "4 000 generated trees (40 000 thorough) with empty directories, deep chains, wide fan-out, symlinks to files / directories / cycles / nowhere, several roots including file and symlink roots, part of the tree on a second device (/dev/shm), under combinations of max_depth, max_filesize, follow_links, same_file_system, an entry filter, hidden and ignore rules; each walked serially and with two parallel thread counts from 1..16 and compared as multisets of (path, depth, is_dir) with a from-scratch lister; link cycles must give a Loop error and termination (entry budget + watchdog). Random exploration with shrinking.",
           "The DirLister encodes the WalkBuilder documentation; a few documented asymmetries (symlinked root file type, optional Loop errors for filtered links) are normalised; schedule-dependent behaviour of the parallel walker is C07's subject.",
           "DESIGN.md section 3 C06"),
   "C07": (True, "exploration",
@@ -42,12 +42,12 @@ CHECKS = {
           "DESIGN.md section 3 C07"),
   "C08": (True, "exploration",
           "proptest-driven generated trees/modes; metamorphic relation between rg -j1 and rg -jN under perturbed timing (size spread, sleeping --pre script, repeats); --sort compared byte for byte",
-          "240 permutation cases x 3 thread counts x 3 repeats and 60 sorted cases (~2 700 multi-threaded runs; ~90 000 thorough): the -jN output must consist of exactly the -j1 per-file blocks, each once, contiguous and byte-identical, with separators exactly between blocks and the same exit status, in standard/heading/context/count/-l/--json/--files modes; --sort path output identical to -j1 and across repeats. The evidence counts how many distinct block orders were actually observed.",
+          "240 permutation cases x 3 thread counts x 3 repeats and 60 sorted cases (~2 700 multi-threaded runs; ~90 000 thorough), every other repeat with a second rg binary that has the walker's yield hooks compiled in and sleeps pseudo-randomly at its synchronisation points (VERIF_YIELD_JITTER), a quarter of the trees being deep directory chains: the -jN output must consist of exactly the -j1 per-file blocks, each once, contiguous and byte-identical, with separators exactly between blocks and the same exit status, in standard/heading/context/count/-l/--json/--files modes; --sort path output identical to -j1 and across repeats. The evidence counts how many distinct block orders were actually observed.",
           "The OS picks the interleaving: this is perturbed random exploration, the claim is only 'no violation in N perturbed runs'; binary files behind a --pre pipe are excluded (cut-off depends on pipe read sizes, see C14).",
           "DESIGN.md section 3 C08"),
   "C09": (True, "exploration",
           "proptest-driven generated (pattern, input, flag set) cases; the real binary's stdout is parsed by a grammar derived from the flags and every record checked against the file bytes (round-trip), columns/submatches against the per-line regex oracle",
-          "6 000 generated cases (120 000 thorough) over -n -b --column --vimgrep -H/-I --heading --null -A -B --json -U --crlf -v -i, mmap on/off, inputs with invalid UTF-8, multi-byte characters, very long lines (up to 75 KB), CRLF and missing final newline: every printed body must be a line of the file byte for byte with its own line number / offset, column = first match start (all matches for --vimgrep), separators exactly between non-adjacent lines; JSON decoded lines/submatches must reproduce the file bytes, text vs base64 by UTF-8 validity in both directions, begin (match|context)* end. Random exploration with shrinking.",
+          "15 000 generated cases (200 000 thorough) over -n -b --column --vimgrep -H/-I --heading --null -A -B --json -U --crlf -v -i, mmap on/off, inputs with invalid UTF-8, multi-byte characters, very long lines (up to 75 KB), CRLF and missing final newline: every printed body must be a line of the file byte for byte with its own line number / offset, column = first match start (all matches for --vimgrep), separators exactly between non-adjacent lines; JSON decoded lines/submatches must reproduce the file bytes, text vs base64 by UTF-8 validity in both directions, begin (match|context)* end. Random exploration with shrinking.",
           "Line selection itself is C01/C03; under -U the column is asserted only for the first line of a block; columns under -v are excluded (undocumented); two known shapes (CRLF re-termination; the C10 trailing-empty-match shape) are tolerated / excluded by exact signature.",
           "DESIGN.md section 3 C09"),
   "C10": (True, "exploration",
@@ -57,7 +57,7 @@ CHECKS = {
           "DESIGN.md section 3 C10"),
   "C11": (True, "exploration",
           "exhaustive small-grammar pattern enumeration + random patterns + repository pattern corpus; per pattern an automata-product search generates a witness line iff one exists, and the witness is executed against the real matcher (concrete oracle)",
-          "Every pattern AST up to 4 nodes (5 thorough) over 9 leaves x LF/CRLF/NUL x plain/-i/-w/-x, every AST up to 6 nodes (7 thorough) of a literal-extraction grammar x plain/-w, ~900 pattern-like literals from the repository, and thousands of random larger patterns. For each accepted pattern the compiled HIR (hook) becomes a dense DFA; BFS over the DFA / DFA products decides over ALL terminator-free byte strings whether a match can contain a terminator or a declared non-matching byte, whether a matching line exists that contains none of the extracted inner literals, and whether the pattern differs from its unterminated build; found witnesses are confirmed by find_at / is_match / find_candidate_line. Exact per pattern (ASCII for Unicode word boundaries); patterns are enumerated to a bound and sampled beyond.",
+          "Every pattern AST up to 4 nodes (5 thorough) over 9 leaves x LF/CRLF/NUL x plain/-i/-w/-x, every AST up to 6 nodes (7 thorough) of a literal-extraction grammar x plain/-w, every concatenation of up to 5 (6 thorough) tokens incl. capturing groups under -w, ~900 pattern-like literals from the repository, and thousands of random larger patterns. For each accepted pattern the compiled HIR (hook) becomes a dense DFA; BFS over the DFA / DFA products decides over ALL terminator-free byte strings whether a match can contain a terminator or a declared non-matching byte, whether a matching line exists that contains none of the extracted inner literals, and whether the pattern differs from its unterminated build; found witnesses are confirmed by find_at / is_match / find_candidate_line. Exact per pattern (ASCII for Unicode word boundaries); patterns are enumerated to a bound and sampled beyond.",
           "regex-automata's DFA construction is trusted only as a witness generator (a wrong DFA can lose witnesses, never raise an alarm); needs the verif-hooks HIR/literal accessors; one known finding (NUL terminator vs line anchors) tolerated by exact signature.",
           "DESIGN.md section 3 C11"),
   "C12": (True, "exploration",
@@ -77,22 +77,22 @@ CHECKS = {
           "DESIGN.md section 3 C14"),
   "C15": (True, "fault_enumeration",
           "fault enumeration at the CLI: generated trees x injected faults (mode-000 files/dirs as uid 65534, dangling symlinks, missing paths, read errors, invalid arguments) x 7 modes x -j1/-j4, and stdout closed after every k bytes; decision-table oracle + differential against a fault-free run",
-          "3 000 fault cases (60 000 thorough) with both matching and faulty entries populated in every cell of the (match x fault x mode x threads) table, compared with the exit-status decision table, per-file diagnostics on stderr and a fault-free reference run on the tree minus the faulty entries; ~400 invalid-argument combinations (status 2, empty stdout); closed-pipe runs for every k up to 320 bytes (4 KiB thorough) and buffer-boundary k for outputs up to 400 KiB (status 0, no diagnostic, termination).",
+          "3 000 fault cases (60 000 thorough; a fifth of them with --no-messages) with both matching and faulty entries populated in every cell of the (match x fault x mode x threads) table, compared with the exit-status decision table, per-file diagnostics on stderr and a fault-free reference run on the tree minus the faulty entries; ~400 invalid-argument combinations (status 2, empty stdout); closed-pipe runs (a quarter of them through --pre cat) for every k up to 320 bytes (4 KiB thorough) and buffer-boundary k for outputs up to 400 KiB (status 0, no diagnostic, termination).",
           "Files removed or truncated between listing and opening are not reachable from the CLI; closed pipe combined with a per-file fault is left unasserted (the property gives no rule); a watchdog expiry is inconclusive unless a second, longer run confirms it.",
           "DESIGN.md section 3 C15"),
   "C16": (True, "fault_enumeration",
           "fault enumeration over one generated run: sink stop and sink error at every event index, reader error and Interrupted at every read index; oracle = prefix of the uninterrupted event log",
-          "For each of tens of thousands of generated searches every event index (begin, match, context, break, binary notice) is used once as a stop point and once as an error point, and every read index once as an I/O error and once as Interrupted; delivered events must be exactly the prefix, finish exactly once after a stop and never after an error, the error returned. Complete over the fault points of each explored run; runs themselves are sampled.",
+          "For each of tens of thousands of generated searches every event index (begin, match, context, break, binary notice) is used once as a stop point and once as an error point, and every read index once as an I/O error and once as Interrupted; delivered events must be exactly the prefix, finish exactly once after a stop and never after an error, the error returned; plus 4 000 CLI cases of rg -m N -A a -B b (standard and JSON) that must print exactly the first N matching lines and the context they are entitled to. Complete over the fault points of each explored run; runs themselves are sampled.",
           "An Interrupted read that some layer retries (search completes with full results) is accepted as well as one surfaced as an error: the property fixes the prefix/finish/error contract, not which layer retries.",
           "DESIGN.md section 3 C16"),
   "C17": (True, "exploration",
           "proptest-driven generated texts/encodings/read fragmentations; differential oracle = encoding_rs one-shot decoding, then the same search on the UTF-8 bytes",
-          "12 000 generated cases (180 000 thorough): texts with BMP/astral characters, lone surrogates, odd byte counts, malformed double-byte sequences, encoded as UTF-16LE/BE/UTF-8 with BOM or searched with an explicit label, BOM vs conflicting label, --encoding none; each searched under slice, fragmented readers (splitting code units and surrogate pairs, crossing the 8 KiB transcoding buffer), file and mmap, and compared event by event with the search of the one-shot transcoding; plus a CLI sample. Random exploration with shrinking.",
+          "25 000 generated cases (250 000 thorough): texts with BMP/astral characters, lone surrogates, odd byte counts, malformed double-byte sequences, encoded as UTF-16LE/BE/UTF-8 with BOM or searched with an explicit label, BOM vs conflicting label, --encoding none; each searched under slice, fragmented readers (splitting code units and surrogate pairs, crossing the 8 KiB transcoding buffer), file and mmap, and compared event by event with the search of the one-shot transcoding; plus a CLI sample. Random exploration with shrinking.",
           "Trusts encoding_rs's one-shot decode as the meaning of 'its UTF-8 transcoding'; four known findings rooted in encoding_rs_io / encoding_rs are tolerated by exact predicted deviation.",
           "DESIGN.md section 3 C17"),
   "C18": (True, "fault_enumeration",
           "fault enumeration at the CLI: generated preprocessor scripts / real and fake decompressors with injected stderr volume, exit status and exit point; differential oracle = rg on the bytes the command writes, plus an error decision table",
-          "A fixed grid of 132 stderr-flood cases (70 KB / 2 MiB before, during, after stdout x exit points x status x -m1) and 1 500 generated trees (24 000 thorough) with --pre, --pre-glob, -z on real gzip/bzip2/xz/lzma archives valid and truncated, missing tools, commands that cannot start, early stops by -m1/-l/-q/binary detection: stdout must equal rg on the command's own output per file, errors must name the file and give exit 2 exactly where the table requires, floods must not block.",
+          "A fixed grid of 132 stderr-flood cases (70 KB / 2 MiB before, during, after stdout x exit points x status x -m1) and 2 500 generated trees (24 000 thorough) with --pre, --pre-glob, -z on real gzip/bzip2/xz/lzma archives valid and truncated, missing tools, commands that cannot start, early stops by -m1/-l/-q/binary detection: stdout must equal rg on the command's own output per file, errors must name the file and give exit 2 exactly where the table requires, floods must not block.",
           "The overlap 'rg stopped early AND the command failed with stderr output' is left unasserted (the property gives no rule); timing-dependent shapes are asserted only when the early stop is certain; a watchdog expiry counts only when a second run confirms it.",
           "DESIGN.md section 3 C18"),
   "C19": (True, "exploration",
@@ -102,7 +102,7 @@ CHECKS = {
           "DESIGN.md section 3 C19"),
   "C03": (True, "exploration",
           "exhaustive small-scope enumeration + proptest-driven random cases against a reference model (LineModel)",
-          "Every input of up to 5 lines over a 5-symbol line alphabet and every match bitmap up to 9 lines (quick; 7/11 thorough), times the full product of context sizes 0..3, invert, passthru, stop-on-nonmatch, line numbers, LF/CRLF/NUL, 4 matcher kinds and 5 strategies is compared event by event with an independent grep model; plus thousands of random larger cases. Bounded-exhaustive, not a proof.",
+          "Every input of up to 5 lines over a 5-symbol line alphabet and every match bitmap up to 9 lines (quick; 7/11 thorough), times the full product of context sizes 0..3, invert, passthru, stop-on-nonmatch, line numbers, LF/CRLF/NUL, 4 matcher kinds and 5 strategies is compared event by event with an independent grep model; plus thousands of random larger cases, and 3 000 cases in which the real binary's stdout (rg -n -b -A a -B b, -v, --passthru, --stop-on-nonmatch, --crlf, --null-data, mmap/stdin) must be byte-identical to the model's rendering. Bounded-exhaustive, not a proof.",
           "Trusts the LineModel (harness/src/model.rs) as the reading of the grep model; context kind labels are validated, not compared.",
           "DESIGN.md section 3 C03"),
 }
